@@ -292,6 +292,31 @@ pub fn check_raster(c: &Case, obs: &mut Obs) -> Result<(), Fail> {
             ensure!(near(p, want), "raster:outside_frame", "pixel ({:.1}, {:.1}) just outside the frame is {:?}, expected {:?} ({} module): the raster frame is larger or elsewhere than the SVG geometry ({})", cx + 0.5, cy + 0.5, p, want, if dark { "dark" } else { "light" }, cfg.to_json());
         }
     }
+    // every cell of the symbol and the quiet zone whose CENTRE lies clearly outside frame and image (a quarter module) shows
+    // its own module: the frame hides what it covers, nothing more - also when its edges fall inside cells
+    let clear = |x: f64, y: f64, rx: f64, ry: f64, rw: f64, rh: f64| x < rx - 0.25 || x > rx + rw + 0.25 || y < ry - 0.25 || y > ry + rh + 0.25;
+    let mut partly_covered = 0;
+    for cy in 0..s_total {
+        for cx in 0..s_total {
+            let (x, y) = (cx as f64 + 0.5, cy as f64 + 0.5);
+            if !clear(x, y, f.x.min(f.x + f.w), f.y.min(f.y + f.h), f.w.abs(), f.h.abs()) || !clear(x, y, f.ix, f.iy, f.iw, f.ih) {
+                continue;
+            }
+            let touches = (cx as f64) < f.x + f.w && (cx + 1) as f64 > f.x && (cy as f64) < f.y + f.h && (cy + 1) as f64 > f.y;
+            if touches {
+                partly_covered += 1;
+            }
+            if let Some(p) = px(x, y) {
+                let (c0, r0) = (cx as i64 - m as i64, cy as i64 - m as i64);
+                let dark = c0 >= 0 && r0 >= 0 && (c0 as usize) < n && (r0 as usize) < n && vals[r0 as usize * n + c0 as usize];
+                let want = if dark { [0u8, 0, 0] } else { [255u8, 255, 255] };
+                ensure!(near(p, want), "raster:cell_outside_frame", "centre ({:.1}, {:.1}) of a {} module outside the frame{} is {:?}, expected {:?} (frame {:.2}..{:.2} x {:.2}..{:.2}; {})", x, y, if dark { "dark" } else { "light" }, if touches { " (the cell is partly under the frame)" } else { "" }, p, want, f.x, f.x + f.w, f.y, f.y + f.h, cfg.to_json());
+            }
+        }
+    }
+    if partly_covered > 0 {
+        obs.label("raster:cells_partly_under_frame_checked");
+    }
     obs.nontrivial(crate::engine::hash_value(&json!({"raster": to_json(c)})));
     Ok(())
 }
